@@ -42,12 +42,43 @@ def _field_names(T):
 POSITIONAL = ["len", "type", "to_list", "to_list", "at", "at", "range", "range", "range", "index", "mask", "to_json", "fields", "field"]
 
 
+def list_depth(T):
+    """number of dimensions (the array itself counts) of a type made of lists, options and numbers only; None otherwise"""
+    d = 1
+    while True:
+        T = M.strip_option(T)
+        if T[0] in ("list", "regular"):
+            d += 1
+            T = T[1]
+        elif T[0] == "prim":
+            return d
+        else:
+            return None
+
+
 @st.composite
-def hl_step(draw, n, names, partitioned, positional_only=False):
+def hl_step(draw, n, names, partitioned, positional_only=False, depth=None):
     kinds = (POSITIONAL + ([] if positional_only else ["num", "flatten", "sum", "add1", "is_none"])
-             + (["repartition", "repartition", "partitions"] if partitioned else ["materialized", "range", "field"]))
+             + (["repartition", "repartition", "partitions", "concat_self", "concat_self_len", "concat_self_at"] if partitioned
+                else ["materialized", "range", "field"]))
+    if partitioned and depth is not None and not positional_only:
+        # operations whose partitioned implementation decides between "per partition" and "across partitions" by the axis: the
+        # outermost axis spelled 0 and -depth, inner axes in both spellings (added after the seeded changes C03-e and C09-e were missed)
+        kinds = kinds + ["pad_none", "pad_none", "reduce_axis", "reduce_axis", "num_axis"]
     op = draw(st.sampled_from(kinds))
     b = st.one_of(st.none(), st.integers(-n - 2, n + 2))
+    if op == "concat_self_at":
+        return {"op": op, "i": draw(st.integers(-2 * n - 1, 2 * n))}
+    if op == "pad_none":
+        return {"op": op, "target": draw(st.integers(0, n + 2)), "axis": draw(st.sampled_from([0, -depth] + ([1, -1] if depth >= 2 else []))),
+                "clip": draw(st.booleans())}
+    if op == "reduce_axis":
+        # the outermost axis only where nothing lies below it (reducing across lists is other properties' known findings)
+        axes = [0, -1] if depth == 1 else [depth - 1, -1]
+        return {"op": op, "name": draw(st.sampled_from(["sum", "max", "min", "count", "count_nonzero", "any", "all", "argmax", "argmin"])),
+                "axis": draw(st.sampled_from(axes)), "keepdims": draw(st.booleans()), "mask_identity": draw(st.booleans())}
+    if op == "num_axis":
+        return {"op": op, "axis": draw(st.sampled_from([0, -depth] + ([1, 1 - depth] if depth >= 2 else [])))}
     if op == "at":
         return {"op": op, "i": draw(st.integers(-n - 1, n))}
     if op == "range":
@@ -141,12 +172,14 @@ def ppartition_cases(draw):
     lens = {-1: n}
     for j in range(draw(st.integers(1, 8))):
         src = draw(st.sampled_from(sorted(lens))) if draw(st.integers(0, 2)) == 0 else -1
-        spec = draw(hl_step(lens[src], names, True, encoded))
+        spec = draw(hl_step(lens[src], names, True, encoded, list_depth(T)))
         steps.append({"src": src, "spec": spec})
         if spec["op"] == "range":
             lens[j] = _after(lens[src], spec)
         elif spec["op"] == "repartition":
             lens[j] = lens[src]
+        elif spec["op"] == "concat_self":
+            lens[j] = 2 * lens[src]
     return {"part": "ppartition", "pieces": pieces, "encoded": encoded, "steps": steps}
 
 
@@ -189,6 +222,18 @@ def papply(A, x, spec):
         return sum(A.partitions(x) or [len(x)])       # the partition lengths add up to the length
     if op == "repartition":
         return A.repartition(x, spec["lengths"])
+    if op == "concat_self":
+        return A.concatenate([x, x])
+    if op == "concat_self_len":
+        return len(A.concatenate([x, x]))
+    if op == "concat_self_at":
+        return A.concatenate([x, x])[spec["i"]]
+    if op == "pad_none":
+        return A.pad_none(x, spec["target"], axis=spec["axis"], clip=spec["clip"])
+    if op == "reduce_axis":
+        return getattr(A, spec["name"])(x, axis=spec["axis"], keepdims=spec["keepdims"], mask_identity=spec["mask_identity"])
+    if op == "num_axis":
+        return A.num(x, axis=spec["axis"])
     raise HarnessError("unknown high-level op " + op)
 
 
@@ -496,8 +541,9 @@ def run_ppartition(case):
             have = A.partitions(vres)
             if have is not None and [x for x in have if x != 0] != want and len(esrc[src]) > 0:
                 raise Violation("ppartition:lengths|repartition", "ak.repartition(%r) gives other partition lengths" % (lens,), expected=want, observed=have)
-        if nonempty > 1 and op in ("at", "range", "index", "mask", "sum", "num", "flatten", "add1", "to_json", "repartition", "to_list"):
+        if nonempty > 1 and op in ("at", "range", "index", "mask", "sum", "num", "flatten", "add1", "to_json", "repartition", "to_list", "concat_self",
+                                   "concat_self_len", "concat_self_at", "pad_none", "reduce_axis", "num_axis"):
             nontrivial = True
-        if op in ("range", "repartition") and isinstance(eres, A.Array) and isinstance(vres, A.Array):
+        if op in ("range", "repartition", "concat_self") and isinstance(eres, A.Array) and isinstance(vres, A.Array):
             esrc[j], psrc[j] = eres, vres
     return {"tags": tags, "nontrivial": nontrivial and compared > 0, "sample_class": "ppartition:%d" % len(pieces), "counts": {"qsteps_compared": compared}}
